@@ -221,6 +221,25 @@ def check_case(case) -> Obs:
         S, D = _mk_lab(False)
         wl = _wl(dev, key=case.get("key", len(repr(case))), max_volume=M, auto_split=False)
         obs.units = 1
+
+        def split_twin(when):
+            # the same volumes on a worklist of the same device WITH auto_split: neither setting may leak into the other
+            S2, D2 = _mk_lab(False)
+            wl_s = _wl(dev, key=case.get("key", len(repr(case))) + 1, max_volume=M, auto_split=True)
+            try:
+                wl_s.transfer(S2, ["A01", "B01"], D2, ["A01", "B01"], [min(1, M), v])
+            except Exception as exc:  # noqa
+                obs.bad("C06/split-refused", f"auto_split=True transfer of {v} with max_volume={M} ({when} the same transfer without auto_split) raised {type(exc).__name__}: {exc}")
+                return
+            got = [float(r.split(";")[6]) for r in wl_s if r.startswith("A;")]
+            lo, hi = _count_range(v, M)
+            lo, hi = lo + 1, hi + 1  # plus the one pair of the small first volume
+            if not (lo <= len(got) <= hi) or any(x > M + 0.005 for x in got):
+                obs.bad("C06/record-count", f"auto_split=True transfer of [{min(1, M)}, {v}] with max_volume={M} ({when} the same transfer without auto_split) emitted the steps {got[:10]} (expected {lo}..{hi} pairs, none above max_volume)")
+
+        order_first = case.get("key", len(repr(case))) % 2 == 0
+        if order_first:
+            split_twin("before")
         try:
             wl.transfer(S, ["A01", "B01"], D, ["A01", "B01"], [min(1, M), v])
         except InvalidOperationError:
@@ -234,6 +253,8 @@ def check_case(case) -> Obs:
         for rec in wl:
             if rec[:2] in ("A;", "D;") and float(rec.split(";")[6]) > M + 0.005:
                 obs.bad("C06/oversized-record", f"auto_split=False: record {rec!r} exceeds max_volume {M}")
+        if not order_first:
+            split_twin("after")
         # the same border for a reagent distribution (one dispense of v per destination well)
         for auto in (False, True):
             T = robotools.Trough("T", 8, 1, min_volume=0, max_volume=1e9, initial_volumes=5e8)
